@@ -13,6 +13,7 @@ import (
 	"fmt"
 	"hash/fnv"
 	"os"
+	"runtime/debug"
 	"sort"
 	"strconv"
 	"strings"
@@ -380,7 +381,13 @@ func (nopLogger) Log(string, string, ...interface{}) {}
 func within(d time.Duration, f func()) (ok bool, panicVal any) {
 	done := make(chan any, 1)
 	go func() {
-		defer func() { done <- recover() }()
+		defer func() {
+			p := recover()
+			if p != nil && os.Getenv("VERIF_DEBUG_STACK") != "" {
+				fmt.Fprintf(os.Stderr, "within: panic %v\n%s\n", p, debug.Stack())
+			}
+			done <- p
+		}()
 		f()
 	}()
 	select {
